@@ -41,6 +41,10 @@ for p, slices in VOCAB_THOROUGH:
 # NOT registered: c13_cmath.cpp part 9 (success probes of the APPROXIMATING cmath functions at boundary arguments).  C13 speaks
 # about operations with an exactly specified result; holding gcem's approximations to "constant evaluation succeeds" demands
 # more than the property states (DESIGN.md section 0, correction vi).  Their compile-time path is C16's subject.
+# two-range algorithms over two different element types: the harness of C06 also compares its constexpr table with the run-time
+# result and tags that comparison C13 (seeded breakage c13_equal_memcmp_mixed_signedness: a run-time-only memcmp path)
+for fl in ("O2", "O0"):
+    runs.append({"src": "harness/c06_mixed_types.cpp", "flavour": fl, "std": "c++20", "jobs": ["mixed/two-range/.*"]})
 # contract checks on (flavour chk): every precondition of a valid call must itself be a constant expression
 for p in [1, 2, 3, 4, 5, 6, 7, 8]:
     runs.append({"src": "harness/c13_kernels.cpp", "flavour": "chk", "std": "c++20", "defs": ["-DMC_PART=%d" % p], "cxxflags": CX, "tiers": ["thorough"]})
